@@ -231,6 +231,7 @@ func (req *SrvReq) process() {
 	if !flushed {
 		req.status |= reqWork
 	}
+	verifPoint("@check", req, flushed)
 	req.Unlock()
 	verifPoint("process.check", req, flushed)
 
@@ -247,6 +248,7 @@ func (req *SrvReq) process() {
 
 	verifPoint("process.end", req)
 	req.Lock()
+	verifPoint("@end", req, int(req.status))
 	req.status &= ^reqWork
 	if req.status&reqResponded == 0 {
 		req.status |= reqSaved
@@ -388,6 +390,7 @@ func (req *SrvReq) Respond() {
 	status := req.status
 	req.status |= reqResponded
 	req.status &= ^reqWork
+	verifPoint("@mark", req, int(status))
 	req.Unlock()
 	verifPoint("respond.mark", req, int(status))
 
@@ -437,6 +440,7 @@ func (req *SrvReq) Respond() {
 		delete(conn.reqs, req.Tc.Tag)
 		flushreqs = req.flushreq
 	}
+	verifPoint("@unlink", req, nextreq, flushreqs)
 	conn.Unlock()
 	verifPoint("respond.unlink", req)
 
@@ -458,6 +462,7 @@ func (req *SrvReq) Respond() {
 func (req *SrvReq) Flush() {
 	req.Lock()
 	req.status |= reqFlush
+	verifPoint("@implflush", req)
 	req.Unlock()
 	req.Respond()
 }
